@@ -6,7 +6,8 @@ from tools import hydro, vlib
 class C30(C28):
     props_vo = "theories/Props/C30.vo"
     theorems = ["C30_batch_functions_modelled_ir", "C30_tick_state_does_not_leak",
-                "C30_defer_one_tick_later", "C30_cycle_carry"]
+                "C30_defer_one_tick_later", "C30_cycle_carry",
+                "C30_across_ticks_stream_modelled_ir", "C30_across_ticks_aggregate_modelled_ir"]
     imports = "From HV Require Import Hydro.Model Hydro.ModelTick Hydro.ModelFlows."
     fn = "chk30"
     prop = "C30"
@@ -15,8 +16,8 @@ class C30(C28):
             "incl. empty ticks; the implementation's per-tick outputs are compared with the emitted 'tick state "
             "machines (bit0) and with the per-batch list functions / one-tick shift (bit1); + one emission-table "
             "case per flow; non-trivial = >= 2 ticks, >= 2 items and some output")
-    assumptions = ["the theorems quantify over the modelled tick IR only (see coverage.ir_coverage); across_ticks, "
-                   "atomic regions and keyed generators are not modelled",
+    assumptions = ["the theorems quantify over the modelled tick IR only (see coverage.ir_coverage); the body of across_ticks is a "
+                   "program of the top-level IR; other atomic regions and keyed generators are not modelled",
                    "a tick cycle is modelled by the iteration loop_run (correspondence on the t_cycle flow)",
                    "hash iteration order abstracted: keyed outputs compared as multisets per tick",
                    "ticks are driven explicitly with run_tick_sync; batch() is an identity in production"]
@@ -34,10 +35,13 @@ class C30(C28):
         tr = self.translate()
         flow = case["flow"]
         if case.get("k") == "syntax":
+            if flow.startswith("x_"):
+                return 1 if flow in tr.failed else hydro.emit_term_named(flow, tr.name(flow), res)
             return 1 if flow in tr.failed else hydro.emit_term_named(flow, tr.name(flow), res, fn="chk_bemit")
         if hydro.broken(res) or len(res["ticks"]) != len(case["ticks"]):
             return 3
-        term = "(%s %s %s %s)" % (self.fn, tr.name(flow), hydro.g_ticks(case), hydro.g_impl(res))
+        fn = "chk30_across" if flow.startswith("x_") else self.fn
+        term = "(%s %s %s %s)" % (fn, tr.name(flow), hydro.g_ticks(case), hydro.g_impl(res))
         return tr.wrap(flow, case, term)
 
     def extra(self):
